@@ -170,6 +170,12 @@ func checkChain(c chainCase) (o pbt.Outcome, err error) {
 	if hostile {
 		o.Class("a name of the hostile dictionary")
 	}
+	for _, r := range c.Rows {
+		if len(r.Name) > 25 {
+			o.Class("a name longer than 25 characters")
+			break
+		}
+	}
 	if special['?'] {
 		o.Class("residues contain ?")
 	}
